@@ -619,6 +619,16 @@ theorem defmMulticlassParent_specV (hr : RecOK r k) (h : PostV c0 c) (hn : Fits 
     exact Holds.postV' h2 (defmMut_pushParent_step h2.inv defmId (hx pid rfl))
   · exact Holds.pure h2
 
+theorem multiclassParent_specV (hr : RecOK r k) (h : PostV c0 c) (hn : Fits (k + 1) c0 n) (mcId : Nat) :
+    Holds (multiclassParent r mcId n) c (fun _ c' => PostV c0 c') := by
+  unfold multiclassParent
+  refine Holds.bind (resolveClassRefAsMulticlass_specV hr h hn) ?_
+  rintro x c2 ⟨h2, hx⟩
+  split
+  · rename_i pid
+    exact Holds.postV' h2 (multiclassMut_pushParent_step h2.inv mcId (hx pid rfl))
+  · exact Holds.pure h2
+
 theorem indexParentClassList_specV (hr : RecOK r k) (h : PostV c0 c) (hn : Fits (k + 1) c0 n)
     (hk : HasKind isRecMcDefmKind c0) :
     Holds (indexParentClassList r n) c (fun _ c' => PostV c0 c') := by
@@ -655,16 +665,28 @@ theorem indexParentClassList_specV (hr : RecOK r k) (h : PostV c0 c) (hn : Fits 
     rintro mid _ ⟨rfl, hmid⟩
     split
     · rename_i mcId
-      refine Holds.bind (Holds.forIn_mem (fun _ c' => PostV c c') h ?_) (fun _ c' h' => Holds.pure ⟨h', trivial⟩)
-      intro cr hcr b c1 h1
-      refine Holds.bind (resolveClassRefAsMulticlass_specV hr h1 (hn.sub' (Ast.children_sub hcr))) ?_
-      rintro x c2 ⟨h2, hx⟩
+      refine Holds.bind currentDefmId_spec ?_
+      rintro did _ ⟨rfl, _⟩
       split
-      · rename_i pid
-        refine Holds.bind (Holds.postV' h2 (multiclassMut_pushParent_step h2.inv mcId (hx pid rfl))) ?_
-        intro _ c3 h3
-        exact Holds.pure h3
-      · exact Holds.pure h2
+      · exact Holds.pure ⟨h, trivial⟩
+      · rename_i first rest hcl
+        have hfirst : first ∈ Ast.parentClassListClasses n := by rw [hcl]; simp
+        have hrest : ∀ x ∈ rest, x ∈ Ast.parentClassListClasses n := fun x hx => by rw [hcl]; simp [hx]
+        refine Holds.bind (multiclassParent_specV hr h (hn.sub' (Ast.children_sub hfirst)) mcId) ?_
+        intro _ c1 h1
+        refine Holds.bind (Holds.forIn_mem (fun _ c' => PostV c c') h1 ?_) (fun _ c' h' => Holds.pure ⟨h', trivial⟩)
+        intro cr hcr b c2 h2
+        have hcrn := hn.sub' (Ast.children_sub (hrest cr hcr))
+        refine Holds.bind (namesClassOnly_spec h2 hcrn) ?_
+        rintro b' c' hcc
+        subst hcc
+        split
+        · refine Holds.bind (resolveClassRefAsClass_specV hr h2 hcrn) ?_
+          rintro x c3 ⟨h3, _⟩
+          exact Holds.pure h3
+        · refine Holds.bind (multiclassParent_specV hr h2 hcrn mcId) ?_
+          intro _ c3 h3
+          exact Holds.pure h3
     · rename_i hnone2
       have hm0 : c.scopes.currentMulticlassId = none := by
         cases hh : c.scopes.currentMulticlassId with
@@ -797,34 +819,56 @@ theorem indexFieldLet_specV {rid : Nat} (hr : RecOK r k) (h : PostV c0 c) (hn : 
         refine Holds.bind (withSM_spec _) ?_
         rintro ft c' ⟨hcc, _⟩
         subst hcc
-        refine Holds.bind (Holds.postV h (addRecordField_step h.inv
-          (a := { name := name, typ := ft, parent := rid, defineLoc := loc }) hvalid (hloc.nodeLoc h.toPost)
-          (hloc.tokAt h.toPost))) ?_
-        rintro fid c2 ⟨h2, hfid, hfeq⟩
-        refine Holds.bind (Holds.postV' h2 (recordMut_insertField_step h2.inv rid name hfid ?_ (by rw [hfeq]))) ?_
-        · intro _
-          rw [hfeq, h2.ext.sm.recLoc rid hvalid]
-          have := hloc.1
-          rw [hfile] at this
-          exact (Option.some.inj this).symm
-        intro _ c3 h3
-        refine Holds.bind (addReference_specV h3 (s := .recordField fieldId)
-          (Nat.lt_of_lt_of_le hfld h3.ext.sizes.flds) hloc
-          ((h3.ext.sm.n.nm (.recordField fieldId) hfld).trans (c.symbolMap.recordFindField_nm h.inv.names hff.symm))
-          (h3.inv.names.flds fieldId (Nat.lt_of_lt_of_le hfld h3.ext.sizes.flds))) ?_
-        intro _ c4 h4
+        refine Holds.bind (withSM_spec _) ?_
+        rintro par c' ⟨hcc, _⟩
+        subst hcc
         split
-        · rename_i v hv
-          refine Holds.bind (hr.valueV h4 (hn.sub (Ast.child_sub hv))) ?_
-          intro vt c5 h5
+        · refine Holds.bind (Holds.postV h (addRecordField_step h.inv
+            (a := { name := name, typ := ft, parent := rid, defineLoc := loc }) hvalid (hloc.nodeLoc h.toPost)
+            (hloc.tokAt h.toPost))) ?_
+          rintro fid c2 ⟨h2, hfid, hfeq⟩
+          refine Holds.bind (Holds.postV' h2 (recordMut_insertField_step h2.inv rid name hfid ?_ (by rw [hfeq]))) ?_
+          · intro _
+            rw [hfeq, h2.ext.sm.recLoc rid hvalid]
+            have := hloc.1
+            rw [hfile] at this
+            exact (Option.some.inj this).symm
+          intro _ c3 h3
+          refine Holds.bind (addReference_specV h3 (s := .recordField fieldId)
+            (Nat.lt_of_lt_of_le hfld h3.ext.sizes.flds) hloc
+            ((h3.ext.sm.n.nm (.recordField fieldId) hfld).trans (c.symbolMap.recordFindField_nm h.inv.names hff.symm))
+            (h3.inv.names.flds fieldId (Nat.lt_of_lt_of_le hfld h3.ext.sizes.flds))) ?_
+          intro _ c4 h4
           split
-          · refine canBeCastedTo_spec _ _ ?_
-            intro b
+          · rename_i v hv
+            refine Holds.bind (hr.valueV h4 (hn.sub (Ast.child_sub hv))) ?_
+            intro vt c5 h5
             split
-            · exact (error_specV h5 (hn.sub' (Ast.child_sub hv)).rangeIn _).mono (fun _ _ hp => ⟨hp, trivial⟩)
+            · refine canBeCastedTo_spec _ _ ?_
+              intro b
+              split
+              · exact (error_specV h5 (hn.sub' (Ast.child_sub hv)).rangeIn _).mono (fun _ _ hp => ⟨hp, trivial⟩)
+              · exact hret h5
             · exact hret h5
-          · exact hret h5
-        · exact hret h4
+          · exact hret h4
+        · have h3 := h
+          refine Holds.bind (addReference_specV h3 (s := .recordField fieldId)
+            (Nat.lt_of_lt_of_le hfld h3.ext.sizes.flds) hloc
+            ((h3.ext.sm.n.nm (.recordField fieldId) hfld).trans (c.symbolMap.recordFindField_nm h.inv.names hff.symm))
+            (h3.inv.names.flds fieldId (Nat.lt_of_lt_of_le hfld h3.ext.sizes.flds))) ?_
+          intro _ c4 h4
+          split
+          · rename_i v hv
+            refine Holds.bind (hr.valueV h4 (hn.sub (Ast.child_sub hv))) ?_
+            intro vt c5 h5
+            split
+            · refine canBeCastedTo_spec _ _ ?_
+              intro b
+              split
+              · exact (error_specV h5 (hn.sub' (Ast.child_sub hv)).rangeIn _).mono (fun _ _ hp => ⟨hp, trivial⟩)
+              · exact hret h5
+            · exact hret h5
+          · exact hret h4
       · refine Holds.bind (error_specV h hloc.locIn.range _) ?_
         intro _ c1 h1
         split
@@ -1536,9 +1580,11 @@ theorem indexSimpleValue_specV (hr : RecOK r k) (h : PostV c0 c) (hn : Fits (k +
   · -- Bits
     split
     · rename_i vl hvl
-      refine Holds.bind (valueLoop_specV hr h (fun v hv => (hn.sub' (Ast.child_sub hvl)).sub (Ast.children_sub hv))) ?_
-      intro _ c1 h1
-      split <;> exact Holds.pure h1
+      refine Holds.bind (Holds.forIn_mem (fun _ c' => PostV c0 c') h ?_) (fun _ c' h' => Holds.pure h')
+      intro v hv b c1 h1
+      refine Holds.bind (hr.valueV h1 ((hn.sub' (Ast.child_sub hvl)).sub (Ast.children_sub hv))) ?_
+      intro t c2 h2
+      split <;> exact Holds.pure h2
     · exact Holds.pure h
   · -- List
     split
@@ -1676,7 +1722,10 @@ theorem indexValue_specV (hr : RecOK r k) (h : PostV c0 c) (hn : Fits (k + 1) c0
       intro _ c3 h3
       exact Holds.pure h3
     · intro _ c2 h2
-      split <;> exact Holds.pure h2
+      split
+      · exact Holds.pure h2
+      · exact Holds.pure h2
+      · split <;> exact Holds.pure h2
   · exact Holds.pure h
 
 /-! ### the knot -/
